@@ -174,3 +174,6 @@ OBLIGATIONS = _qobs() + [
          encodes=['SubmissionTask._wait_for_all_submitted_futures_to_complete', 'TransferCoordinator.associated_futures'],
          assumptions=[]),
 ]
+
+from harness.corace import OB_CCI, OB_SEM, count_callback, sliding_window_waiters  # noqa: E402
+OBLIGATIONS += [dict(OB_SEM, id='C04.5', cases_thorough=[(1, 2), (1, 3), (2, 3), (2, 4)]), dict(OB_CCI, id='C04.6')]
